@@ -20,31 +20,104 @@ type Emission struct {
 	Fields  map[string]ssa.Value   // payload field -> stored value (composite literal)
 	Stores  map[string][]ssa.Value // every value stored into the field (reassignments after the literal)
 	Lit     *ssa.Alloc             // the literal's cell, if any
+	Lifted  *ssa.Function          // non-nil: the event is built by this helper; Call is the call of the helper in Fn
 	Ordinal map[string]int         // per event type: 1-based ordinal within Fn in source order
 }
 
 // emissions lists all newEvent call sites in module functions, in function/source order.
 func (c *Ctx) emissions() []*Emission {
+	if c.emMemo != nil {
+		return c.emMemo
+	}
 	ne := c.F.Anchors["newEvent"]
 	if ne == nil {
 		return nil
 	}
-	var out []*Emission
+	var direct []*Emission
 	for _, fn := range c.Fns {
-		var calls []*ssa.Call
 		for _, call := range callsTo(fn, ne) {
-			if cv, ok := call.(*ssa.Call); ok {
-				calls = append(calls, cv)
+			cv, ok := call.(*ssa.Call)
+			if !ok {
+				continue
 			}
-		}
-		sourceOrder(calls)
-		counts := map[string]int{}
-		for _, cv := range calls {
 			em := &Emission{Fn: fn, Call: cv, Fields: map[string]ssa.Value{}, Stores: map[string][]ssa.Value{}, Ordinal: map[string]int{}}
 			em.Types = c.constStrings(cv.Call.Args[0], 0, map[ssa.Value]bool{})
 			if len(cv.Call.Args) >= 3 {
 				em.decodePayload(cv.Call.Args[2])
 			}
+			direct = append(direct, em)
+		}
+	}
+	// emission lifting: an event built by a small helper from its parameters (newStateEvent(id, state, now)) is an
+	// emission of each of the helper's call sites, with the parameters replaced by the arguments
+	var all []*Emission
+	var lift func(em *Emission, depth int)
+	lift = func(em *Emission, depth int) {
+		h := em.Fn
+		liftable := depth < 2 && h.Parent() == nil && c.F.Callbacks[h] == nil && len(c.callers[h]) > 0
+		if liftable {
+			liftable = false
+			for _, v := range em.Fields {
+				if _, ok := resolve(v).(*ssa.Parameter); ok {
+					liftable = true
+				}
+			}
+			// the helper must hand the event (or its error) straight back
+			if liftable {
+				returned := false
+				for _, r := range returnsOf(h) {
+					for _, res := range r.Results {
+						if ex, ok := strip(res).(*ssa.Extract); ok && ex.Index == 0 && ex.Tuple == ssa.Value(em.Call) {
+							returned = true
+						}
+					}
+				}
+				liftable = returned
+			}
+		}
+		if !liftable {
+			all = append(all, em)
+			return
+		}
+		for _, cs := range c.callers[h] {
+			cv, ok := cs.Call.(*ssa.Call)
+			if !ok {
+				continue
+			}
+			le := &Emission{Fn: cs.Fn, Call: cv, Types: em.Types, Payload: em.Payload, Fields: map[string]ssa.Value{}, Stores: map[string][]ssa.Value{}, Ordinal: map[string]int{}, Lifted: h}
+			sub := func(v ssa.Value) ssa.Value {
+				if prm, ok := resolve(v).(*ssa.Parameter); ok && prm.Parent() == h {
+					if i := paramIndex(prm); i < len(cv.Call.Args) {
+						return cv.Call.Args[i]
+					}
+				}
+				return v
+			}
+			for k, v := range em.Fields {
+				le.Fields[k] = sub(v)
+			}
+			for k, vs := range em.Stores {
+				for _, v := range vs {
+					le.Stores[k] = append(le.Stores[k], sub(v))
+				}
+			}
+			lift(le, depth+1)
+		}
+	}
+	for _, em := range direct {
+		lift(em, 0)
+	}
+	// ordinals per function and type, in source order
+	byFn := map[*ssa.Function][]*Emission{}
+	for _, em := range all {
+		byFn[em.Fn] = append(byFn[em.Fn], em)
+	}
+	var out []*Emission
+	for _, fn := range c.Fns {
+		ems := byFn[fn]
+		sort.SliceStable(ems, func(i, j int) bool { return ems[i].Call.Pos() < ems[j].Call.Pos() })
+		counts := map[string]int{}
+		for _, em := range ems {
 			for _, t := range em.Types {
 				counts[t]++
 				em.Ordinal[t] = counts[t]
@@ -52,6 +125,7 @@ func (c *Ctx) emissions() []*Emission {
 			out = append(out, em)
 		}
 	}
+	c.emMemo = out
 	return out
 }
 
